@@ -15,6 +15,7 @@ import Driver.C08
 import Driver.C09
 import Driver.C07
 import Driver.C14
+import Driver.C17
 open Driver
 
 def machines : List (String × Machine × Machine) :=
@@ -35,7 +36,8 @@ def machines : List (String × Machine × Machine) :=
    ("C08", C08.machine, C08.judge),
    ("C09", C09.machine, C09.judge),
    ("C07", C07.machine, C07.judge),
-   ("C14", C14.machine, C14.judge)]
+   ("C14", C14.machine, C14.judge),
+   ("C17", C17.machine, C17.judge)]
 
 def main (args : List String) : IO UInt32 := do
   match args with
